@@ -244,13 +244,14 @@ package scheduler
 // setup opens the files of ONE attempt.  It re-arms teardown (done = false): the buffered writers created here hold
 // the attempt's output until teardown flushes them, and a retry runs setup again on a node already torn down once.
 //@ fn (*Node).setup(n, logDir, requestID) (err)
-//@   props C03 C12
-//@   modifies n.done, n.data.State.StartedAt, n.data.State.Log, n.data.State.Error, n.data.Step.CmdWithArgs, n.data.Step.Stdout,
+//@   props C03 C05 C12
+//@   modifies n.done, n.data.State.StartedAt, n.data.State.FinishedAt, n.data.State.Log, n.data.State.Error, n.data.Step.CmdWithArgs, n.data.Step.Stdout,
 //@            n.data.Step.Stderr, n.data.Step.Dir, n.logFile, n.logWriter, n.stdoutFile, n.stdoutWriter, n.stderrFile,
 //@            n.stderrWriter, n.scriptFile, heap(alloc), ghost nsetup, ghost eff.env, ghost env.key, ghost env.val, ghost eff.fs,
 //@            ghost fs.*, ghost fw.*, ghost obs.exists*, ghost obs.stat*
 //@   records nsetup = upd(old(nsetup), n, old(nsetup[n]) + 1)
 //@   ensures [C12 setup_rearms_teardown] !n.done
+//@   ensures [C05 a_new_attempt_has_not_finished] n.data.State.FinishedAt == 0
 //@   ensures [C12 log_is_opened_under_the_name_in_the_status] err == nil ==>
 //@        (n.logFile != nil && file_name(n.logFile) == n.data.State.Log && n.logWriter != nil && bw_file(n.logWriter) == n.logFile)
 //@   ensures [C12 stdout_file_is_opened_when_configured] err == nil && n.data.Step.Stdout != "" ==>
@@ -345,8 +346,8 @@ package scheduler
 
 // dry-run gating (C03): with sc.dry none of the three touches a node, a file or a process
 //@ fn (*Scheduler).setupNode(sc, node) (err)
-//@   props C03 C12
-//@   modifies node.data.State.StartedAt, node.data.State.Log, node.data.State.Error, node.data.Step.CmdWithArgs, node.data.Step.Stdout,
+//@   props C03 C05 C12
+//@   modifies node.data.State.StartedAt, node.data.State.FinishedAt, node.data.State.Log, node.data.State.Error, node.data.Step.CmdWithArgs, node.data.Step.Stdout,
 //@            node.data.Step.Stderr, node.data.Step.Dir, node.logFile, node.logWriter, node.stdoutFile, node.stdoutWriter, node.stderrFile,
 //@            node.stderrWriter, node.scriptFile, node.done, ghost nsetup, ghost eff.env, ghost env.key, ghost env.val, ghost eff.fs,
 //@            heap(alloc), ghost fs.*, ghost fw.*, ghost obs.exists*, ghost obs.stat*
@@ -354,6 +355,7 @@ package scheduler
 //@        node.data.State.Error == old(node.data.State.Error) && node.done == old(node.done)
 //@   ensures !sc.dry ==> nsetup == upd(old(nsetup), node, old(nsetup[node]) + 1)
 //@   ensures [C12 setup_rearms_teardown] !sc.dry ==> !node.done
+//@   ensures [C05 a_new_attempt_has_not_finished] !sc.dry ==> node.data.State.FinishedAt == 0
 //@   ensures [C12 log_is_opened_under_the_name_in_the_status] !sc.dry && err == nil ==>
 //@        (node.logFile != nil && file_name(node.logFile) == node.data.State.Log && node.logWriter != nil && bw_file(node.logWriter) == node.logFile)
 //@   ensures [C12 stdout_file_is_opened_when_configured] !sc.dry && err == nil && node.data.Step.Stdout != "" ==>
@@ -426,13 +428,14 @@ package scheduler
 //@       (old(node.data.State.Status) == NodeStatusRunning && node.data.State.Status == NodeStatusCancel))
 //@ fn (*Scheduler).Schedule$1(node)
 //@   interference worker_rely
-//@   props C01 C02 C03 C12
+//@   props C01 C02 C03 C05 C12
 //@   requires [flipped_before_spawn] node.data.State.Status != NodeStatusNone
 //@   requires sc != nil
 //@   modifies *
 //@   spawn modifies ghost launch, ghost chk.fresh
 //@   spawn ensures launch == upd(old(launch), node, old(launch[node]) + 1) && !chk.fresh
 //@   assert before (*Scheduler).execNode [C05 stop_flag_is_consulted_before_every_execution] chk.fresh
+//@   assert before (*Scheduler).execNode [C05 an_attempt_that_is_about_to_run_is_not_marked_finished] !sc.dry ==> arg2.data.State.FinishedAt == 0
 //@   assert before (*Node).setStatus [C01,C15 worker_writes_only_its_own_step] arg0 == node && arg1 != NodeStatusRunning
 //@   assert before (*Node).setErr [C01 worker_writes_only_its_own_step] arg0 == node
 //@   assert before (*Node).incRetryCount [C01 worker_writes_only_its_own_step] arg0 == node
@@ -736,9 +739,9 @@ package scheduler
 //@ pred needs_rerun(s NodeStatus) = s == NodeStatusError || s == NodeStatusCancel || s == NodeStatusRunning
 
 //@ fn (*Node).clearState(n)
-//@   props C10
+//@   props C03 C10
 //@   modifies n.data.State
-//@   ensures [C10 reset_step_is_not_started] n.data.State.Status == NodeStatusNone && n.data.State.Error == nil &&
+//@   ensures [C03,C10 reset_step_is_not_started] n.data.State.Status == NodeStatusNone && n.data.State.Error == nil &&
 //@        n.data.State.RetryCount == 0 && n.data.State.DoneCount == 0 && n.data.State.Log == ""
 
 //@ pred retry_graph_wf(g *ExecutionGraph) = nodes_wf(g) && dict_wf(g) && ids_wf(g) && graph_wf(g) &&
